@@ -106,6 +106,7 @@ func runAudits(w *World, cs *Contracts, mods *ModAnalysis, prop string, out *che
 		for _, op := range ops {
 			out.auditObls++
 			name := fmt.Sprintf("%s#cancellable:%s:%s#%d", rn, shortFuncName(op.fn), op.kind, op.ord)
+			out.auditNames = append(out.auditNames, name)
 			if !op.ok {
 				out.auditFail = append(out.auditFail, auditFailure{Name: name, Desc: op.why + " at " + w.Fset.Position(op.pos).String()})
 			}
